@@ -143,6 +143,10 @@ type schedCase struct {
 	Seed      int64      `json:"seed"`
 	Dry       bool       `json:"dry"`
 	Ops       []string   `json:"ops,omitempty"` // replay: explicit op list instead of PRNG choices
+	// retry mode (C10): recorded per-step state of the run that is retried
+	Init   []string `json:"init,omitempty"`
+	InitRC []int    `json:"irc,omitempty"`
+	InitDC []int    `json:"idc,omitempty"`
 }
 
 type snap struct {
@@ -166,9 +170,14 @@ type result struct {
 	HandlerSt [4]string `json:"hst"`
 	Monitor   []string `json:"monitor"`
 	Panic     string   `json:"panic,omitempty"`
+	St0       []string `json:"st0,omitempty"` // retry mode: statuses right after NewExecutionGraphForRetry
+	RC0       []int    `json:"rc0,omitempty"`
 }
 
 var pause = time.Millisecond
+
+// retry mode: steps recorded as running that NewExecutionGraphForRetry did not reset have no worker
+var exemptRunning = map[int]bool{}
 var curCase schedCase
 
 func stepOf(cid string, i int, nc nodeCase) dag.Step {
@@ -301,7 +310,7 @@ func quiesce(sc *scheduler.Scheduler, g *scheduler.ExecutionGraph, finished chan
 		s := takeSnap(sc, g)
 		blocked := true
 		for i, st := range s.St {
-			if st == "running" {
+			if st == "running" && !exemptRunning[i] {
 				in := false
 				for _, f := range s.Flight {
 					if f == i {
@@ -335,18 +344,36 @@ func runCase(c schedCase, quiet time.Duration) (res result) {
 	W = &world{inflight: map[int]*scriptExec{}, attempts: map[int]int{}}
 	rng := rand.New(rand.NewSource(c.Seed))
 	curCase = c
+	exemptRunning = map[int]bool{}
 	fifoDir, _ = os.MkdirTemp("", "verif-fifo-")
 	defer os.RemoveAll(fifoDir)
 	var steps []dag.Step
 	for i, nc := range c.Nodes {
 		steps = append(steps, stepOf(c.ID, i, nc))
 	}
-	g, err := scheduler.NewExecutionGraph(logger.NewLogger(logger.NewLoggerArgs{Quiet: true}), steps...)
+	var g *scheduler.ExecutionGraph
+	var err error
+	if c.Init != nil {
+		g, err = retryGraph(c, steps)
+	} else {
+		g, err = scheduler.NewExecutionGraph(logger.NewLogger(logger.NewLoggerArgs{Quiet: true}), steps...)
+	}
 	if err != nil {
 		res.Monitor = append(res.Monitor, "graph-rejected:"+err.Error())
 		return
 	}
 	W.g = g
+	if c.Init != nil {
+		for _, n := range g.Nodes() {
+			res.St0 = append(res.St0, n.State().Status.String())
+			res.RC0 = append(res.RC0, n.State().RetryCount)
+		}
+		for i, st := range res.St0 {
+			if st == "running" {
+				exemptRunning[i] = true
+			}
+		}
+	}
 	logDir, _ := os.MkdirTemp("", "verif-sched-")
 	defer os.RemoveAll(logDir)
 	sc := scheduler.New(&scheduler.Config{
@@ -513,7 +540,11 @@ func runCase(c schedCase, quiet time.Duration) (res result) {
 			res.HandlerSt[h] = n.State().Status.String()
 		}
 	}
-	res.Monitor = append(res.Monitor, monitor(c, &res, stopped)...)
+	if c.Init != nil {
+		res.Monitor = append(res.Monitor, monitorRetry(c, &res, stopped)...)
+	} else {
+		res.Monitor = append(res.Monitor, monitor(c, &res, stopped)...)
+	}
 	return
 }
 
@@ -549,8 +580,6 @@ func main() {
 				out.Flush()
 			case "graph":
 				graphCase(line, out)
-			case "retry":
-				retryCase(line, out)
 			}
 		}
 		if err != nil {
